@@ -23,7 +23,7 @@ theorem for_eq (l : List Nat) : ∀ (s : Nat) (acc : List Nat),
   | cons v l ih =>
     intro s acc
     have hstep : prescan_for1 (· + ·) (s, acc) v = Res.ok (s + v, acc ++ [s]) := by
-      simp [prescan_for1]
+      simp [prescan_for1, Nat.add_comm]
     rw [List.foldlM_cons, hstep, Res.ok_bind, ih]
     simp [OccM.prescanGo, Nat.add_assoc]
 
